@@ -23,7 +23,7 @@ for pid in allp:
         "replay_cmd_template": f"./check {pid} --replay {{path}}",
         "engine": "lean4-model+go-differential",
         "level_claimed": {"category": c["level"], "text": c.get("level_text", c.get("explanation", "")), "design_ref": c.get("design_ref", f"DESIGN.md §5 {pid}")},
-        "level_note": c.get("level_note", "Trusted: Lean 4.33 kernel + propext/Classical.choice/Quot.sound; the hand-written model, tied to /repo only by the differential streams and regenerated facts; Go harness canonicaliser and Lean driver; SDK BaseApp rollback; crypto libraries abstract (see DESIGN.md §3)."),
+        "level_note": c.get("level_note", "Trusted: Lean 4.33 kernel + propext/Classical.choice/Quot.sound; the hand-written model, tied to /repo only by the differential streams; Go harness canonicaliser and Lean driver; SDK BaseApp rollback; crypto libraries abstract (see DESIGN.md §3)."),
         "technique": c.get("technique", "Lean 4 theorems over a hand-written model + differential correspondence against the real Go code"),
     })
 man = {
